@@ -6,7 +6,7 @@ from .. import feccat
 from . import c01, c03
 
 ID = "C02"
-KINDS = {"U": ["weight_triangle", "nearest_decoder_corrects", "ml_is_nearest", "ml_corrects", "syndrome_decoder_corrects", "syndrome_table_entry", "hamming_inverse_corrects"],
+KINDS = {"U": ["weight_triangle", "nearest_decoder_corrects", "ml_is_nearest", "ml_corrects", "ml_corrects_large", "syndrome_decoder_corrects", "syndrome_table_entry", "hamming_inverse_corrects"],
          "R": ["syndrome_decoder_instances"],
          "K": ["C03.instances_ok (distances, shared catalogue)", "C01.instances_ok (null space, right inverse)"]}
 PARTIAL = ["Berlekamp-Massey (BCH) and the Reed majority decoder (RM): no Lean model yet - the check runs the implementation on every "
